@@ -331,7 +331,8 @@ func Check(c Case) (v vcase.Verdict) {
 	pmsg, hung := vcase.Watchdog(30*time.Second, run)
 	switch {
 	case hung:
-		v.Failf("reading did not terminate within 30s on %d bytes of input", len(texts[0]))
+		v.Poisoned = true
+		v.Failf("reading did not terminate (30 s of CPU time) on %d bytes of input", len(texts[0]))
 	case pmsg != "":
 		v.Failf("%s", pmsg)
 	case fail != "":
@@ -376,9 +377,22 @@ func checkReader(c Case, texts []string, v *vcase.Verdict) string {
 				if n++; n > 1000 {
 					return "reader produces records without end on a failing input"
 				}
+				// every record delivered before the failure is a real one: the healthy part of
+				// this input consists of "BenchmarkF 1 1 u" lines only
+				switch rec := r.Result().(type) {
+				case *benchfmt.Result:
+					if string(rec.Name) != "F" || rec.Iters != 1 || len(rec.Values) != 1 || rec.Values[0].Value != 1 || rec.Values[0].Unit != "u" || rec.GetConfig("cpu") != "x" {
+						return fmt.Sprintf("before the I/O error the reader delivered the result %q %d %v (config cpu=%q), which is not in the input", rec.Name, rec.Iters, rec.Values, rec.GetConfig("cpu"))
+					}
+				default:
+					return fmt.Sprintf("before the I/O error the reader delivered a record %T (%v) that is not in the input", rec, rec)
+				}
 			}
 			if r.Err() == nil {
 				return "Err() is nil after the input failed with an I/O error"
+			}
+			if r.Scan() {
+				return "Scan returned true again after it had returned false because of an I/O error"
 			}
 			v.Label("io_error_then_reset")
 			continue
